@@ -1,5 +1,5 @@
 // bounded stand-in / replay driver (appended to acts/src/scheduler/tests/message.rs of a scratch copy): property C06.
-// 8 workflows; in each the irq act `err1` is answered with error code e1 (acts named `err2` with e2, all other irq acts are completed):
+// 9 workflows (the last one: a failing script act that declares the catch itself); in each the irq act `err1` is answered with error code e1 (acts named `err2` with e2, all other irq acts are completed):
 // no catch / non-matching catch -> act, step and workflow end in error with the original code, exactly one error event;
 // matching catch / catch-all on the step or on the act itself -> the catch steps run exactly once, the catching task completes, the
 // successor step runs, the process completes without an error event; a second error raised inside the catch steps is not taken by the
@@ -8,8 +8,8 @@
 async fn verif_replay_hist_catch() {
     let mut bad: Vec<String> = Vec::new();
     #[derive(Clone, Copy, PartialEq, Debug)]
-    enum W { NoCatch, NonMatching, StepCatch, StepCatchAll, ActCatch, FirstOfTwo, ErrorInsideCatch, NestedCatch }
-    for w in [W::NoCatch, W::NonMatching, W::StepCatch, W::StepCatchAll, W::ActCatch, W::FirstOfTwo, W::ErrorInsideCatch, W::NestedCatch] {
+    enum W { NoCatch, NonMatching, StepCatch, StepCatchAll, ActCatch, FirstOfTwo, ErrorInsideCatch, NestedCatch, ScriptActCatch }
+    for w in [W::NoCatch, W::NonMatching, W::StepCatch, W::StepCatchAll, W::ActCatch, W::FirstOfTwo, W::ErrorInsideCatch, W::NestedCatch, W::ScriptActCatch] {
         let step2 = |s: crate::Step| s.with_id("step2").with_act(Act::irq(|a| a.with_key("ok_after")));
         let workflow = match w {
             W::NoCatch => Workflow::new().with_step(|s| s.with_id("step1").with_act(Act::irq(|a| a.with_key("err1")))).with_step(step2),
@@ -21,6 +21,9 @@ async fn verif_replay_hist_catch() {
                 .with_catch(|c| c.with_step(|s| s.with_id("cs").with_act(Act::irq(|a| a.with_key("ok_catch")))))).with_step(step2),
             W::ActCatch => Workflow::new().with_step(|s| s.with_id("step1").with_act(Act::irq(|a| a.with_key("err1"))
                 .with_catch(|c| c.with_on("e1").with_step(|s| s.with_id("cs").with_act(Act::irq(|a| a.with_key("ok_catch"))))))).with_step(step2),
+            // the failing act is a script (an act that delivers no message of its own) and declares the catch itself
+            W::ScriptActCatch => Workflow::new().with_step(|s| s.with_id("step1").with_act(Act::code(r#"throw new Error("boom");"#).with_id("code1")
+                .with_catch(|c| c.with_step(|s| s.with_id("cs").with_act(Act::irq(|a| a.with_key("ok_catch"))))))).with_step(step2),
             W::FirstOfTwo => Workflow::new().with_step(|s| s.with_id("step1").with_act(Act::irq(|a| a.with_key("err1")))
                 .with_catch(|c| c.with_on("e1").with_step(|s| s.with_id("cs").with_act(Act::irq(|a| a.with_key("ok_catch")))))
                 .with_catch(|c| c.with_step(|s| s.with_id("cs_all").with_act(Act::irq(|a| a.with_key("ok_catchall")))))).with_step(step2),
@@ -67,7 +70,7 @@ async fn verif_replay_hist_catch() {
                 if errors != 1 || completes != 0 { d.push(format!("{errors} error event(s), {completes} complete event(s); exactly one error event expected")); }
                 if count("ok_catch") != 0 || count("ok_after") != 0 { d.push(format!("acts ran after the uncaught error: {created:?}")); }
             }
-            W::StepCatch | W::StepCatchAll | W::ActCatch | W::FirstOfTwo => {
+            W::StepCatch | W::StepCatchAll | W::ActCatch | W::FirstOfTwo | W::ScriptActCatch => {
                 if count("ok_catch") != 1 { d.push(format!("the matching catch's step ran {} time(s): {created:?}", count("ok_catch"))); }
                 if w == W::FirstOfTwo && count("ok_catchall") != 0 { d.push("the second (catch-all) catch ran although the first catch matched".to_string()); }
                 if count("ok_after") != 1 || !proc.state().is_success() { d.push(format!("after the catch the flow must continue with step2 and complete: step2 act created {} time(s), process {}", count("ok_after"), proc.state())); }
